@@ -466,7 +466,10 @@ class Ctx:
             "wall_s": round(self.elapsed(), 2),
             "violations": nviol,
         }
-        d = os.path.join(VERIF, "evidence")
+        # the committed evidence describes full runs against /repo only: a run restricted with --only, or pointed at
+        # another checkout with VERIF_REPO (mutants, seeded changes), writes its evidence next to it instead
+        partial = bool(getattr(self, "only", None)) or os.path.realpath(REPO) != "/repo"
+        d = os.path.join(VERIF, "evidence-scratch" if partial else "evidence")
         os.makedirs(d, exist_ok=True)
         tmp = os.path.join(d, ".%s.json.%d" % (self.pid, os.getpid()))
         with open(tmp, "w") as f:
